@@ -17,6 +17,12 @@ CHECKS['C17'] = dict(
    note='Trusted: Coq kernel; py2coq translator in gen_params.py (arithmetic expression subset, python numbers as exact rationals); hand model of analyze_number/with_unit; python float vs exact rational gap covered by correspondence at 1e-9. Partial: the unknown-function half of the property has no theorem yet.',
    design='3/C17')
 
+CHECKS['C06'] = dict(
+   technique='Coq proof by induction over guard structure (unbounded comma lists of and-chains) + regenerated operator tables as table facts + correspondence impl/model/spec',
+   text='Theorems C06_condition (each of the five comparisons, optionally negated, has its arithmetic meaning on all pairs of rationals; the stored operator goes through the regenerated reverse_guard and Expression.operate maps), C06_guard (Mixin.parse_guards on the flat list the parser builds equals "some and-chain holds entirely" for every comma list of and-chains of any length), C06_exclusive (first-match selection picks the mixin whose guard holds when guards are mutually exclusive). Correspondence: generated guards x argument pairs through the real compiler, compared inside Coq with the model and with the DNF spec.',
+   note='Trusted: Coq kernel; gen_params.py (dict extraction); hand model of parse_guards / p_mixin_guard_cond_rev / Deferred first-match; argument binding and numeric operand evaluation tied by correspondence only.',
+   design='3/C06')
+
 NOT_YET = {}
 
 
